@@ -2,12 +2,13 @@
 
 package control
 
-// VerifC20RetiringPlane returns a control plane that stands for "the previous generation" in the C20 harness:
-// a zero ControlPlane whose one-shot Close has already run, so that the REAL
-// reloadManager.startControlPlaneRetirement goroutine (MarkRetired, retireControlPlaneConnections, oldCancel,
-// Close, close(done)) runs to its end without kernel objects and without spawning unmanaged goroutines.
-func VerifC20RetiringPlane() *ControlPlane {
-	c := &ControlPlane{}
-	c.closeOnce.Do(func() {})
-	return c
+// VerifC20RetiringPlane returns a control plane that stands for "the previous generation" in the C20 harness: a zero
+// ControlPlane on which the REAL reloadManager.startControlPlaneRetirement goroutine runs (MarkRetired,
+// retireControlPlaneConnections, oldCancel, Close, RunReloadRetirementCleanup, close(done)) without kernel objects.
+// onClose is planted in the unexported cancel field, which the real Close() calls first, synchronously, in the calling
+// goroutine: it is the observation point "the old generation is being closed" and the place where the harness lets
+// the scheduler decide how long the teardown of the old generation lasts. The rest of the real Close (janitor stops,
+// close tail) runs for real on the zero plane.
+func VerifC20RetiringPlane(onClose func()) *ControlPlane {
+	return &ControlPlane{cancel: onClose}
 }
